@@ -25,6 +25,7 @@ func c13(c *Ctx) {
 	c13resolver(c)
 	c13reload(c)
 	c13kube(c)
+	c13attach(c)
 }
 
 const discovPkg = "core/discov"
@@ -289,6 +290,55 @@ func c13events(c *Ctx) {
 	}
 	held := c.forall(rule, discovInt+".(*cluster).handleWatchEvents", "PUT ⇒ values[key] = value under the write lock, then OnAdd{key,value} to the listeners; DELETE ⇒ delete(values, key) under the write lock, then OnDelete{key,…}; an unknown watcher ⇒ nothing", f, ps, func(p *px.Path) (bool, string) {
 		w := 0
+		// every event applied to the registry's copy is forwarded: between a mutation of watcher.values and the next event
+		// (or the end) the path reaches the listeners — an OnAdd/OnDelete call, or the listener loop's own length test.
+		// The registry cannot decide that an event is a "no-op" for its listeners: an exclusive subscriber's view is
+		// deliberately not a copy of watcher.values (it evicts older keys of a value), so a repeated pair changes it.
+		isListeners := func(s *px.Sym) bool {
+			s = s.Strip(false)
+			if s == nil {
+				return false
+			}
+			if px.IsFieldLoad(s, "listeners", nil) {
+				return true
+			}
+			if s.Kind == px.KCall && s.Call != nil && s.Call.Builtin == "append" {
+				for _, a := range s.Call.Args {
+					if px.IsFieldLoad(a, "listeners", nil) {
+						return true
+					}
+				}
+			}
+			return false
+		}
+		isMutation := func(e *px.Event) bool {
+			return (e.Kind == px.EvMapUpdate && px.IsFieldLoad(e.Addr, "values", nil)) ||
+				(e.Kind == px.EvCall && e.Call.Builtin == "delete" && len(e.Call.Args) == 2 && px.IsFieldLoad(e.Call.Args[0], "values", nil))
+		}
+		for i := range p.Events {
+			if !isMutation(&p.Events[i]) {
+				continue
+			}
+			reached := false
+			for j := i + 1; j < len(p.Events) && !reached; j++ {
+				x := &p.Events[j]
+				if isMutation(x) || x.Kind == px.EvReturn {
+					break
+				}
+				if x.Kind == px.EvLoopCut {
+					reached = true // the path was cut before the event was finished: not a witness
+				}
+				if x.Kind == px.EvCall && x.Call.Method != nil && (x.Call.Method.Name() == "OnAdd" || x.Call.Method.Name() == "OnDelete") {
+					reached = true
+				}
+				if x.Kind == px.EvCall && x.Call.Builtin == "len" && len(x.Call.Args) == 1 && isListeners(x.Call.Args[0]) {
+					reached = true
+				}
+			}
+			if !reached {
+				return false, "an event is applied to watcher.values but on this path it never reaches the listeners (skipped before the listener loop): the registry's copy is not the subscribers' view — an exclusive subscriber that evicted the key must hear a repeated PUT"
+			}
+		}
 		for i := range p.Events {
 			e := &p.Events[i]
 			switch {
